@@ -49,6 +49,7 @@ func LoadWorld() (*World, error) {
 // NewExec creates an executor whose globals hold the values the package initialiser gives them.
 func (w *World) NewExec() *Exec {
 	ex := NewExec(w.Prog, w.Pkg)
+	ex.world = w
 	ex.runInit()
 	ex.installAssumed()
 	return ex
